@@ -32,6 +32,7 @@ type Oblig struct {
 	All     []SolverResult
 	Trivial bool
 	SMTSize int
+	TimeMul int // timeout multiplier
 }
 
 type Frame struct {
@@ -85,6 +86,18 @@ type Exec struct {
 	ordSeen         map[string]map[string]int
 	hex             map[string]*hexModel
 	specVarsExtra   []string
+	hashCount       int
+	bigVals         map[*Obj]*Term
+	trace           *Term
+	segs            []schedSeg
+	schedMode       bool
+}
+
+type schedSeg struct {
+	kind  string
+	trace *Term
+	hyps  []*Term
+	path  string
 }
 
 type lazyForall struct {
@@ -136,6 +149,9 @@ func (ex *Exec) decide(c *Term, where string) bool {
 		ex.script = append(ex.script, true)
 	}
 	ex.pos++
+	if ex.pos > 120 {
+		ex.unsupported("more than 120 symbolic branches on one path (a loop with a data-dependent branch needs an invariant) at %s", where)
+	}
 	if d {
 		ex.st.addFact(c, "branch@"+where)
 	} else {
